@@ -13,7 +13,8 @@ META = {
                    "the first refusal (longest prefix of whole characters); ArrayString's bytes are private and written only by try_push, so deref's "
                    "from_utf8().unwrap() cannot fail; 1029 decode accepts text only on the Ok arm of from_utf8 and reports InvalidUtf8String otherwise; "
                    "1029 encode refuses more than 127 characters / 255 bytes, which are exactly the capacities of the 7- and 8-bit count fields; the "
-                   "descriptor codecs write len then the bytes and read them back under a capacity guard (C15 rules).",
+                   "descriptor codecs write len then the bytes and read them back under a capacity guard (C15 rules)."
+                   "(B-sem) the bit-exact reading of put / parse these clauses stand on (field bits MSB first at the cursor, nothing else touched) is the abstract interpretation of C07, imported and decided here too.",
     "assumptions": [],
 }
 
